@@ -11,22 +11,48 @@ REWRITES = [
      "use std::{borrow::Cow, fmt::Display};\nuse crate::verif_map::HashMap;"),
     ("src/lib.rs", "mod parser;", "mod parser;\n#[path = \"/verif/kani/shim/verif_map.rs\"]\nmod verif_map;"),
 ]
+def sync_tree(src, dst):
+    """Copy src -> dst, rewriting only files whose content changed (keeps cargo fingerprints)."""
+    for root, dirs, files in os.walk(src):
+        rel = os.path.relpath(root, src)
+        os.makedirs(os.path.join(dst, rel), exist_ok=True)
+        for f in files:
+            a = os.path.join(root, f); b = os.path.join(dst, rel, f)
+            data = open(a, "rb").read()
+            if not os.path.exists(b) or open(b, "rb").read() != data:
+                open(b, "wb").write(data)
+    for root, dirs, files in os.walk(dst):
+        rel = os.path.relpath(root, dst)
+        for f in files:
+            if not os.path.exists(os.path.join(src, rel, f)):
+                os.unlink(os.path.join(root, f))
+
+def write_if_changed(p, data):
+    if not os.path.exists(p) or open(p).read() != data:
+        open(p, "w").write(data)
+
 def main():
-    if os.path.exists(DST + "/src"):
-        shutil.rmtree(DST + "/src")
+    import fcntl
     os.makedirs(DST, exist_ok=True)
-    shutil.copytree(SRC + "/src", DST + "/src")
+    lock = open("/verif/.work/gen/.lock", "w")
+    fcntl.flock(lock, fcntl.LOCK_EX)
+    stage = DST + "/.stage_src"
+    if os.path.exists(stage):
+        shutil.rmtree(stage)
+    shutil.copytree(SRC + "/src", stage)
     for d in ("tests",):
         if os.path.islink(os.path.join(DST, d)):
             os.unlink(os.path.join(DST, d))
     # tests are symlinked (read-only use) so the repository's own suite runs against the substituted build
     os.symlink(SRC + "/tests", os.path.join(DST, "tests"))
     for rel, old, new in REWRITES:
-        p = os.path.join(DST, rel)
+        p = os.path.join(stage, rel[len("src/"):])
         s = open(p).read()
         if s.count(old) != 1:
             print("gen_parser: rewrite no longer matches in %s: %r" % (rel, old)); sys.exit(2)
         open(p, "w").write(s.replace(old, new))
+    sync_tree(stage, DST + "/src")
+    shutil.rmtree(stage)
     cargo = '''[package]
 name = "saphyr-parser-lm"
 version = "0.0.4"
@@ -54,18 +80,17 @@ harness = false
 [lints.rust]
 unexpected_cfgs = { level = "allow" }
 '''
-    open(os.path.join(DST, "Cargo.toml"), "w").write(cargo)
-    shutil.copy("/repo/Cargo.lock", os.path.join(DST, "Cargo.lock"))
+    write_if_changed(os.path.join(DST, "Cargo.toml"), cargo)
+    if not os.path.exists(os.path.join(DST, "Cargo.lock")):
+        shutil.copy("/repo/Cargo.lock", os.path.join(DST, "Cargo.lock"))
     # a copy of the saphyr crate built on the substituted parser, so that tests using both crates type-check
     S2 = "/verif/.work/gen/saphyr_lm"
-    if os.path.exists(S2 + "/src"):
-        shutil.rmtree(S2 + "/src")
     os.makedirs(S2, exist_ok=True)
-    shutil.copytree("/repo/saphyr/src", S2 + "/src")
+    sync_tree("/repo/saphyr/src", S2 + "/src")
     if os.path.islink(S2 + "/tests"):
         os.unlink(S2 + "/tests")
     os.symlink("/repo/saphyr/tests", S2 + "/tests")
-    open(S2 + "/Cargo.toml", "w").write('''[package]
+    write_if_changed(S2 + "/Cargo.toml", '''[package]
 name = "saphyr"
 version = "0.0.4"
 edition = "2021"
